@@ -25,7 +25,7 @@ def all_storage_facts():
 
 
 DRV_FACT_NAMES = ["rejectsEmptyKey", "rejectsLongKey", "flushCmp", "flushAtCount", "deleteRemoves", "validatesCrc", "validatesULen",
-                  "boundsCompressedSize", "boundsDecodedLen", "parseConsumesAll", "v2Fallback", "rejectsLongName"]
+                  "boundsCompressedSize", "boundsDecodedLen", "parseConsumesAll", "shortPayloadIsEOF", "v2Fallback", "rejectsLongName"]
 
 
 def drv_args(own_facts):
@@ -83,6 +83,7 @@ class HistoryOracle:
         self.block_size = 0
         self.run = 0
         self.exists = False
+        self.compactions = 0
 
     def ack(self, e):
         self.pending.append(e)
@@ -123,7 +124,7 @@ class HistoryOracle:
             return "C01-empty-key-accepted"
         if self.has_long_key:
             return "C01-long-key-accepted"
-        if self.max_unflushed_run > 65535:
+        if self.max_unflushed_run > 65535 or (self.compactions and len(self.base) > 65535):
             return "C01-block-entry-count-overflow"
         return None
 
@@ -149,8 +150,19 @@ def history_oracle(ops, impl):
             okc = n if rep == "ok" else 0
             for j in range(okc):
                 o.ack((1, gen_bytes(kl, st + j), gen_bytes(dl, st + j)))
+        elif f[0] == "wb" and rep == "ok":
+            n, kl, dl, st = map(int, f[1:5])
+            for j in range(n):
+                o.ack((1, gen_bytes(kl, st + j), gen_bytes(dl, st + j)))
+        elif f[0] == "wk":
+            n, dl, st = map(int, f[1:4])
+            okc = n if rep == "ok" else 0
+            for j in range(okc):
+                o.ack((1, struct.pack("<I", st + j), gen_bytes(dl, st + j)))
         elif f[0] in ("flush", "sync", "close") and rep == "ok":
             o.flushed()
+        elif f[0] == "compact" and rep == "ok":
+            o.compactions += 1          # the state must not change; a large live set may now sit in few blocks
         elif f[0] == "ccfg":
             o = HistoryOracle()
             o.exists = True
